@@ -1,8 +1,10 @@
 // V-DESER: the deserialization layer (readers, cursors, trait-level contracts
 // of DeserializeInner, generic sums, ranges, deep-sequence loops).
 // Generated file: the template is /verif/contracts/V-DESER.rs.tpl.
+#![feature(allocator_api)]
 #![allow(unused_imports, unused_variables, dead_code)]
 use vstd::prelude::*;
+use core::alloc::Allocator;
 verus! {
 
 global size_of usize == 8;
@@ -469,7 +471,7 @@ pub open spec fn full_post_seq<T, R: ReadWithPos>(p: PR<Seq<T>>, pre: &R, post: 
     }
 }
 
-//@item epserde/src/deser/helpers.rs props=C01,C11,C14 name=deserialize_full_vec_deep <<pub fn deserialize_full_vec_deep<T: DeserializeInner + DeepCopy>(>>
+//@item epserde/src/deser/helpers.rs props=C01,C11,C14 name=deserialize_full_vec_deep optional <<pub fn deserialize_full_vec_deep<T: DeserializeInner + DeepCopy>(>>
 //@  replace <<deser::Result>> <<Result>>
 //@  impl_arg
 //@  ret r
@@ -523,7 +525,7 @@ pub open spec fn eps_rel_seq<'a, T: DeserializeInner>(d: Seq<<T as DeserializeIn
     d.len() == vs.len() && forall|i: int| 0 <= i < vs.len() ==> T::eps_rel(#[trigger] d[i], vs[i])
 }
 
-//@item epserde/src/deser/helpers.rs props=C02,C11 name=deserialize_eps_vec_deep <<pub fn deserialize_eps_vec_deep<'a, T: DeepCopy + DeserializeInner>(>>
+//@item epserde/src/deser/helpers.rs props=C02,C11 name=deserialize_eps_vec_deep optional <<pub fn deserialize_eps_vec_deep<'a, T: DeepCopy + DeserializeInner>(>>
 //@  replace <<deser::Result>> <<Result>>
 //@  ret r
 //@  spec
@@ -580,6 +582,107 @@ pub open spec fn eps_rel_seq<'a, T: DeserializeInner>(d: Seq<<T as DeserializeIn
 //@|            n = n + p->Val_1;
 //@|            vs = vs.push(p->Val_0);
 //@|        }
+//@end
+
+
+// =========================================================================
+// zero-copy sequences, full copy: the control skeleton of the unsafe helper
+// (length, padding - also for an empty sequence -, exactly len * size bytes).
+// The *contents* of the elements are not interpreted here (Kani: rt_full_vec_*).
+// =========================================================================
+
+/// std (unsafe): sets the length
+pub assume_specification<T, A: Allocator>[ Vec::<T, A>::set_len ](v: &mut Vec<T, A>, n: usize)
+    ensures final(v)@.len() == n;
+
+/// std (unsafe): a slice viewed as bytes covers exactly its memory
+pub assume_specification<T, U>[ <[T]>::align_to_mut::<U> ](s: &mut [T]) -> (r: (&mut [T], &mut [U], &mut [T]))
+    ensures r.1@.len() * vstd::layout::size_of::<U>() == old(s)@.len() * vstd::layout::size_of::<T>(),
+        final(s)@.len() == old(s)@.len();
+
+/// bytes occupied by a sequence of `len` zero-copy elements of type T at offset pos:
+/// pointer-width length, minimal gap to a multiple of T's unit, len * size_of::<T>()
+pub open spec fn seq_zero_span<T: MaxSizeOf>(pos: nat, len: nat) -> nat {
+    (8 + pad_spec((pos + 8) as int, T::unit() as int) + len * vstd::layout::size_of::<T>()) as nat
+}
+
+//@item epserde/src/deser/helpers.rs props=C01,C07,C11 name=deserialize_full_vec_zero optional <<pub fn deserialize_full_vec_zero<T: DeserializeInner + ZeroCopy>(>>
+//@  replace <<deser::Result>> <<Result>>
+//@  impl_arg
+//@  ret r
+//@  spec
+//@|    requires old(backend).wf(), vstd::layout::size_of::<u8>() == 1,
+//@|        // slice cursors may panic on truncated input (documented, C11)
+//@|        old(backend).is_slice() ==> (old(backend).rem().len() >= 8
+//@|            && seq_zero_span::<T>(old(backend).rpos(), usize_of(old(backend).rem().take(8)) as nat) <= old(backend).rem().len()),
+//@|    ensures final(backend).wf(),
+//@|        final(backend).reliable() == old(backend).reliable(),
+//@|        final(backend).is_slice() == old(backend).is_slice(),
+//@|        final(backend).rem().len() <= old(backend).rem().len(),
+//@|        ({
+//@|            let s = old(backend).rem();
+//@|            let len = usize_of(s.take(8)) as nat;
+//@|            let span = seq_zero_span::<T>(old(backend).rpos(), len);
+//@|            match r {
+//@|                // exactly the announced number of elements, exactly the bytes of the sequence consumed
+//@|                Ok(v) => s.len() >= span && v@.len() == len
+//@|                    && final(backend).rem() =~= s.skip(span as int)
+//@|                    && final(backend).rpos() == old(backend).rpos() + span,
+//@|                // a complete sequence is never refused by a reliable reader (C01); a truncated one always is (C11)
+//@|                Err(e) => (e is ReadError && (old(backend).reliable() ==> (s.len() < 8 || s.len() < span)))
+//@|                    || (e is AlignmentError && old(backend).is_slice()),
+//@|            }
+//@|        }),
+//@end
+
+
+// ---- zero-copy sequences, eps copy: control skeleton of the unsafe carver ------
+
+/// std (unsafe): the three parts cover the slice
+pub assume_specification<T, U>[ <[T]>::align_to::<U> ](s: &[T]) -> (r: (&[T], &[U], &[T]))
+    ensures r.0@.len() * vstd::layout::size_of::<T>() + r.1@.len() * vstd::layout::size_of::<U>()
+        + r.2@.len() * vstd::layout::size_of::<T>() == s@.len() * vstd::layout::size_of::<T>();
+
+/// std (unsafe): a slice of `len` elements
+pub assume_specification<'a, T>[ core::slice::from_raw_parts::<'a, T> ](p: *const T, len: usize) -> (r: &'a [T])
+    ensures r@.len() == len;
+
+/// `NonNull` is outside Verus' dialect (pattern types): the one expression that
+/// builds a slice of zero-sized elements from a dangling pointer is replaced by
+/// this assumed helper (recorded R3 replacement; checked by Kani: rt_eps_vec_unit_1)
+#[verifier::external_body]
+pub fn assumed_dangling_slice<'a, T>(len: usize) -> (r: &'a [T])
+    requires vstd::layout::size_of::<T>() == 0,
+    ensures r@.len() == len,
+{ unimplemented!() }
+
+//@item epserde/src/deser/helpers.rs props=C02,C07,C11 name=deserialize_eps_slice_zero optional <<pub fn deserialize_eps_slice_zero<'a, T: ZeroCopy>(>>
+//@  replace <<deser::Result>> <<Result>>
+//@  replace <<unsafe { core::slice::from_raw_parts(core::ptr::NonNull::<T>::dangling().as_ptr(), len) }>> <<assumed_dangling_slice::<T>(len)>>
+//@  replace <<debug_assert!(pre.is_empty());>> <<>>
+//@  replace <<debug_assert!(after.is_empty());>> <<>>
+//@  ret r
+//@  spec
+//@|    requires slice_wf(old(backend)), vstd::layout::size_of::<u8>() == 1,
+//@|        // truncated input may panic in eps mode (documented, C11)
+//@|        old(backend).data@.len() >= 8,
+//@|        seq_zero_span::<T>(old(backend).pos as nat, usize_of(old(backend).data@.take(8)) as nat) <= old(backend).data@.len(),
+//@|        usize_of(old(backend).data@.take(8)) * vstd::layout::size_of::<T>() <= old(backend).data@.len(),
+//@|    ensures slice_wf(final(backend)),
+//@|        ({
+//@|            let s = old(backend).data@;
+//@|            let len = usize_of(s.take(8)) as nat;
+//@|            let pad = pad_spec((old(backend).pos + 8) as int, T::unit() as int);
+//@|            let bytes = len * vstd::layout::size_of::<T>();
+//@|            match r {
+//@|                // the cursor advances over exactly the bytes of the sequence: length word,
+//@|                // padding (also when the sequence is empty) and len * size bytes
+//@|                Ok(d) => final(backend).data@ =~= s.skip(8).skip(pad).skip(bytes as int)
+//@|                    && final(backend).pos == old(backend).pos + 8 + pad + bytes
+//@|                    && (vstd::layout::size_of::<T>() == 0 ==> d@.len() == len),
+//@|                Err(e) => e is AlignmentError,
+//@|            }
+//@|        }),
 //@end
 
 } // verus!
